@@ -17,7 +17,7 @@ from . import common
 from .common import log, ToolError
 
 EXE = "pvh_pipeline"
-RUN_FORMAT = 10     # bump when the way cases are assembled / rendered in this file changes
+RUN_FORMAT = 11     # bump when the way cases are assembled / rendered in this file changes
 THREADS = os.environ.get("PVH_THREADS", "6")
 TLC_WORKERS = int(os.environ.get("PIPELINE_TLC_WORKERS", "4"))
 
@@ -419,6 +419,46 @@ def _render_names(cell):
     return mods
 
 
+def _render_chain(cell, exp):
+    """a chain cell of spec/PipelineShapes.tla -> (source text, fault): the character offsets of the operator TLC named (opidx)
+    and of its two operands are taken from the text as it is written here"""
+    op, n, bad, layout, ctx = cell["op"], cell["n"], cell["bad"], cell["layout"], cell["ctx"]
+    if cell["ty"] == "class":
+        t = b = "i32" if op in "|&^" else "bool"
+    else:
+        t, b = cell["ty"].split("/")
+    lit = lambda ty, k: ("true" if k % 2 else "false") if ty == "bool" else str(k)
+    head = "fn sink(x: %s)\n{\n}\n\nfn calc() -> %s\n{\n" % (t, t)
+    for k in range(1, n + 1):
+        ty = b if k == bad else t
+        head += "\tvar v%d: %s = %s;\n" % (k, ty, lit(ty, k))
+    pre = {"init": "\tvar r: %s = " % t, "arg": "\tsink(", "ret": "\tvar r: %s = %s;\n\treturn: " % (t, lit(t, 1))}[ctx]
+    post = {"init": ";\n\treturn: r\n}\n", "arg": ");\n\treturn: %s\n}\n" % lit(t, 1), "ret": "\n}\n"}[ctx]
+    text = head + pre
+    start = len(text)
+    if layout == "parens":
+        text += "(" * (n - 2)
+    operand, oper = {}, {}
+    for k in range(1, n + 1):
+        if k > 1:
+            sep = {"line": " ", "tight": "", "parens": " ", "lines": "\n\t\t", "comments": " // operand %d | & +\n\t\t" % (k - 1)}[layout]
+            text += sep
+            oper[k - 1] = (len(text), len(text) + 1)
+            text += op + ("" if layout == "tight" else " ")
+        operand[k] = (len(text), len(text) + 2)
+        text += "v%d" % k
+        if layout == "parens" and 2 <= k < n:
+            text += ")"
+    end = len(text)
+    text += post
+    j = exp["opidx"]
+    fault = {"m": 1, "code": exp["code"], "start": start, "end": end, "line": text[:oper[j][0]].count("\n") + 1, "crlf": False,
+             "parts": [{"start": oper[j][0], "end": oper[j][1], "whole": False},
+                       {"start": operand[1][0], "end": operand[j][1], "whole": True},
+                       {"start": operand[j + 1][0], "end": operand[j + 1][1], "whole": True}]}
+    return text, fault
+
+
 def render_shape(case, idx):
     """A cell of spec/PipelineShapes.tla -> source text"""
     cell, exp = case["cell"], case["expect"]
@@ -436,6 +476,10 @@ def render_shape(case, idx):
             raise ToolError("size cell %s rendered as %d bytes" % (json.dumps(cell), len(src.encode())))
         mods = [{"name": "size.pn", "src": src}]
         origin = "size %s/%d" % (cell["pad"], cell["size"])
+    elif fam == "chain":
+        src, fault = _render_chain(cell, exp)
+        mods = [{"name": "chain.pn", "src": src}]
+        origin = "chain %s x%d bad=%d %s/%s/%s" % (cell["op"], cell["n"], cell["bad"], cell["layout"], cell["ctx"], cell["ty"])
     elif fam == "names":
         mods = _render_names(cell)
         origin = "names %s/%s" % (cell["kind"], cell["link"])
@@ -443,6 +487,8 @@ def render_shape(case, idx):
         mods = _render_sym(cell)
         origin = "sym %s/%s/%s" % (cell["flags"].replace(" ", "+") or "private", cell["kind"], cell["place"])
     out = {"id": "shape%d" % idx, "kind": "shape:" + fam, "wasm": wasm, "mods": mods, "origin": origin}
+    if fam == "chain":
+        out["fault"] = fault
     if exp["t"] != "free":
         out["expect"] = {"t": exp["t"]}
         if exp["t"] == "valid":
